@@ -57,6 +57,10 @@ CHECKS = {
    technique="TLC model checking of spec/Import.tla (deep clone with memo table as an explicit call stack over all small source graphs; Terminates, SingleCopy, Closure, UsedResourcesCopied) + replay through PageBuilder::clone_page / Importer / PdfBuilder on generated source documents",
    text="TLC checks the intended clone design on every source graph over 3 objects (all edge sets incl. cycles) with every root set and resource configuration and refutes 'memo after recursion' (non-termination on cycles) and 'category not pruned'; every graph is realised as a source document, its page imported, the result built, reloaded and compared with the spec's expected copy set, plus closure, single copy, page equality and resource equality.",
    note="The colour-space finding is predicted by the as-built model. XObject/Pattern/Properties resources are not modelled yet. A crashed import is observed at process level."),
+ "C03": dict(level="model_checking", design="5/C03", engine="A:lexer+syntax",
+   technique="TLC model checking of spec/Syntax.tla (byte-level reference tokenizer vs transcribed Lexer::next_word over all byte strings up to a bound: SameTokens, CursorSafe) and spec/Spelling.tla (item-level conformant printer: NeedsSep vs the library's delimiter table) + replay of every string / spelling through the library's lexer and parser against an independent reference parser",
+   text="All byte strings <= 4/5/6 over 12 representative bytes are tokenised by the reference tokenizer and the library model in TLC (two deviations refuted) and by the real Lexer; all atom spellings x separators x contexts and all two-element containers are generated by the printer model, rendered with the harness' atom catalogue and parsed by the library; value, exact consumption and the parse of the follower are compared with the independent reference parser.",
+   note="The spelling layer is item-level (bytes of atom variants live in the harness catalogue); trusted: TLC, refparse.rs."),
 }
 
 def main():
